@@ -53,7 +53,7 @@ class Raw:
 
 
 GEN_DEFAULTS = {
-    'N': 4, 'MaxKids': 4, 'MinHi': 0, 'AllowStar': False, 'Axes': set(), 'Types': set(),
+    'N': 4, 'MaxKids': 4, 'MinHi': 0, 'AllowStar': False, 'OverHi': False, 'Axes': set(), 'Types': set(),
     'FCards': set(), 'AttrNames': [], 'AttrVals': set(), 'MaxCtc': 0, 'CtcDepth': 0,
     'CtcBinOps': set(), 'CtcChains': set(), 'CtcArith': False, 'CtcEqShape': False, 'CtcMinFeatures': 1, 'CtcGrow': 0, 'CtcSameName': False, 'Fmt': '', 'Fmt2': '', 'MaxEdits': 0, 'EditKinds': set(), 'MaxLevel': 40, 'Walks': 0, 'Seed': 0, 'Shape': '',
 }
